@@ -26,6 +26,47 @@ def corrupt(case, rnd):
     return c
 
 
+def corrupt_event(ev, rnd):
+    e = copy.deepcopy(ev)
+    if e.get('ev') != 'step' or e.get('err'):
+        return None
+    e['out'] = e['out'] + [122]
+    return e
+
+
+def canon(x):
+    return json.dumps(x, sort_keys=True, separators=(',', ':'))
+
+
+def trace_selftest(ctx, module, events, rejected_lines, label, corrupt_ev):
+    """Binding demonstration for the trace direction (vlib only runs its own when nothing was rejected)."""
+    rnd = __import__('random').Random(ctx.seed)
+    cand = [i for i, e in enumerate(events) if e.get('ev') == 'step' and (i + 1) not in rejected_lines]
+    rnd.shuffle(cand)
+    for i in cand[:50]:
+        ev2 = corrupt_ev(events[i], rnd)
+        if ev2 is None:
+            continue
+        # a short log: the events of the enclosing trace only
+        lo = i
+        while lo > 0 and events[lo].get('ev') != 'reset':
+            lo -= 1
+        hi = i + 1
+        while hi < len(events) and events[hi].get('ev') != 'reset':
+            hi += 1
+        bad = ctx.path(f'bad_{label}.ndjson')
+        with open(bad, 'w') as f:
+            for j in range(lo, hi):
+                f.write(json.dumps(ev2 if j == i else events[j], separators=(',', ':')) + '\n')
+        rej = ctx._run_trace(module, module, bad, label + '-selftest', 600, False)
+        if not any(r['reject'] == i - lo + 1 for r in rej):
+            raise MachineryError(f'{label}: binding self-test failed: corrupted event {i + 1} was accepted')
+        ctx.cov.setdefault('selftest', []).append({'label': label, 'corrupted_event': i + 1, 'rejected': True})
+        ctx.log(f'{label}: binding self-test ok (corrupted event {i + 1} rejected)')
+        return
+    raise MachineryError(f'{label}: self-test could not corrupt any event')
+
+
 def run(ctx):
     q = ctx.quick
     ctx.rule = ('a case is one directive %[flags][width][.precision]conversion (32 flag sets x widths {none, 1, 7, *=6, *=-6} x '
@@ -76,3 +117,39 @@ def run(ctx):
         raise MachineryError(f"C gate covered only {g['gated']} of {g['cases']} cases")
     # 2b. replay on the real code
     ctx.replay('gated.ndjson', label='gen-printf', min_cases=5000, corrupt=corrupt)
+    # 3. code -> spec: sequences of sprintf calls recorded in one interpreter each (format cache), validated by TLC
+    ntr = 30 if q else 300
+    ctx.harness(['C09', 'record', '-seed', str(ctx.seed), '-n', str(ntr), '-out', ctx.path('trace.ndjson')])
+    rejects = ctx.validate_traces('Trace_Printf', 'Trace_Printf', 'trace.ndjson', label='trace-printf', timeout=2400,
+                                  corrupt_event=corrupt_event)
+    events = [json.loads(x) for x in open(ctx.path('trace.ndjson')) if x.strip()]
+    if rejects:
+        trace_selftest(ctx, 'Trace_Printf', events, {r['line'] for r in rejects}, 'trace-printf', corrupt_event)
+        # classify: a rejected call that also disagrees when made alone in a fresh interpreter is an ordinary
+        # formatting deviation (same signatures as the replay direction); one that agrees alone depends on the
+        # calls before it, i.e. on the memoised format translation
+        rj = ctx.path('rejected_calls.ndjson')
+        with open(rj, 'w') as f:
+            for r in rejects:
+                f.write(canon(r['info']) + '\n')
+        out = ctx.path('rejected_calls.json')
+        ctx.harness(['C09', 'replay', '-in', rj, '-out', out, '-maxfail', '10000000'])
+        s = json.load(open(out))
+        alone = set()
+        for fl in s['failures']:
+            alone.add(canon(fl['case']))
+            ctx.failures.append(fl)
+            ctx.sig_counts[fl['sig']] = ctx.sig_counts.get(fl['sig'], 0) + 1
+        for r in rejects:
+            if canon(r['info']) in alone:
+                continue
+            calls = []
+            for e in r['trace'][:r['pos']]:
+                if e.get('ev') == 'step':
+                    calls.append(dict(fmt=e['fmt'], args=e['args'], err=e['err'], out=e['out']))
+            calls.append(dict(fmt=r['info']['fmt'], args=r['info']['args'], err=r['info']['err'], out=r['info']['out']))
+            ctx.add_failure('C09/format-cache/sequence-dependent',
+                            f"call {r['trace'][r['pos']].get('k')} of a recorded run: sprintf result differs from the specification "
+                            f"although the same call alone in a fresh interpreter agrees",
+                            case=dict(fam='q', chars=r['info']['chars'], calls=calls), expected=r['info']['out'],
+                            observed=r['trace'][r['pos']].get('out'))
